@@ -37,7 +37,7 @@ HUGE = Emb("huge", 2 ** 54 + 2, 0, as_int=True)
 
 def embedding(name: str):
     return HUGE if name == "huge" else EMBEDDINGS[name]
-BAD_NAMES = {"3x", "a-b", "x y", ""}
+BAD_NAMES = {"3x", "a-b", "x y", "", "B1<LF>", "a<LF>b", "B1<SP>", "B1<TAB>", "dsp<LF>", "r<SP>"}
 UNKNOWN = "Zq"
 _IDENT = re.compile(r"[A-Za-z_][A-Za-z0-9_]*")
 _RESERVED = {"true", "false", "yes", "no", "on", "off", "null", "y", "n", "True", "False", "Yes", "No", "On", "Off",
@@ -53,8 +53,18 @@ def _dimless(fr: F, emb):
     return float(fr)
 
 
+_TOKENS = (("<LF>", "\n"), ("<TAB>", "\t"), ("<SP>", " "))
+
+
+def name_out(s: str) -> str:
+    """the specification writes control / blank characters of (invalid) names as tokens"""
+    for tok, ch in _TOKENS:
+        s = s.replace(tok, ch)
+    return s
+
+
 def _region_out(r: str) -> str:
-    return "_" if r == GROUND else r
+    return "_" if r == GROUND else name_out(r)
 
 
 def to_tree(doc: dict, emb) -> dict:
@@ -84,15 +94,15 @@ def to_tree(doc: dict, emb) -> dict:
             for t in r["rs"]:
                 q = emb.rect(t)
                 if t[4] != GROUND:
-                    q.append(t[4])
+                    q.append(name_out(t[4]))
                 rl.append(q)
             info["rectangles"] = rl[0] if r["form"] == "flat" else rl
         for k in md["extra"]:
             info[k] = 1
-        mods[md["name"]] = info
+        mods[name_out(md["name"])] = info
     nets = []
     for nd in doc["nets"]:
-        e = list(nd["pins"])
+        e = [name_out(q) for q in nd["pins"]]
         if nd["w"]:
             e.append(_dimless(F(nd["w"][0], nd["w"][1]), emb))
         nets.append(e)
@@ -508,7 +518,13 @@ def random_doc(rng: random.Random) -> dict:
     names = [m["name"] for m in mods]
     for _ in range(rng.randint(0, 5)):
         k = rng.randint(2, min(5, len(names)))
-        nets.append({"pins": rng.sample(names, k), "w": list(rng.choice(_WEIGHTS))})
+        pins = rng.sample(names, k)
+        z = rng.random()
+        if z < 0.08:                       # every pin the same module (the reader takes [B, B])
+            pins = [pins[0]] * rng.randint(2, 3)
+        elif z < 0.16:                     # one module listed twice among others
+            pins.insert(rng.randint(0, len(pins)), rng.choice(pins))
+        nets.append({"pins": pins, "w": list(rng.choice(_WEIGHTS))})
     return {"mods": mods, "nets": nets, "extra": []}
 
 
@@ -666,7 +682,7 @@ def run(ctx: Ctx) -> int:
     tlc.model_check(ctx, "Fpef", f"Fpef_c04_mc_{tier}", vacuity_ignore=("Emit", "Defect"))
     gen = generated_docs(ctx, f"Fpef_gen_{tier}")
     rng = random.Random(ctx.seed * 1000003 + 4)
-    budget = 2600 if tier == "quick" else 20000
+    budget = 2800 if tier == "quick" else 20000
     docs = [g["doc"] for g in gen]
     if len(docs) > budget:     # the model check covers all; replay a seeded sample (all one-module documents kept)
         single = [d for d in docs if len(d["mods"]) == 1]
